@@ -785,7 +785,7 @@ def lean_term(t: tuple) -> str:
     if tag == "ret":
         return f".ret {lean_term(t[1])}"
     if tag == "mut":
-        return f".mut {_ls(t[1])}"
+        return f".mutate {_ls(t[1])}"
     raise GuardSyntaxError(f"no Lean term for {t!r}")
 
 
